@@ -1,9 +1,9 @@
 SPECIFICATION Spec
 CONSTANTS
-  Abis = {"x64-elf", "x64-pe"}
+  Abis = {"x64-elf"}
   MaxUses = 1
   Cat = "full"
-  MapNames = {"AB/dA", "AB/dAf", "AB/dB", "AB/dA_dB", "AB_BC/dA", "AB_BA/dA", "XC/dA", "XC/dAf", "AB_XB/dA_dX"}
+  MapNames = {"AB/dA", "AB/dAf", "AB/dB", "AB_BA/dA", "XC/dA", "XC/dAf"}
   WithPatch = FALSE
   Emit = TRUE
 INVARIANT Inv
